@@ -120,6 +120,23 @@ func StallLeak(r *rng.R) []string {
 	return ops
 }
 
+// Replace: populate over an existing proxy (C03: "replaces a proxy").
+func Replace(r *rng.R) []string {
+	ops := []string{"upstream u1 1", "upstream u2 1", fmt.Sprintf("create p1 u1 %d", r.Pick(1, 1, 0))}
+	if r.Chance(2, 3) {
+		ops = append(ops, "connect p1 c1", fmt.Sprintf("send c1 up %d", r.Pick(1, 100)))
+	}
+	ops = append(ops, fmt.Sprintf("populate p1 %s %d %s", r.PickS("u1", "u2", "u2"), r.Pick(0, 1), r.PickS("same", "same", "new")))
+	ops = append(ops, "connect p1 c2")
+	if r.Chance(1, 2) {
+		ops = append(ops, "enable p1", "connect p1 c3", "send c3 up 5")
+	}
+	if r.Chance(1, 2) {
+		ops = append(ops, fmt.Sprintf("populate p1 %s %d %s", r.PickS("u1", "u2"), r.Pick(0, 1), r.PickS("same", "new")))
+	}
+	return ops
+}
+
 // Relabel: connections before and after a proxy is re-addressed (C20's labels).
 func Relabel(r *rng.R) []string {
 	ops := []string{"upstream u1 1", "upstream u2 1", "create p1 u1 1", "connect p1 c1",
@@ -190,6 +207,8 @@ func Episode(r *rng.R) []string {
 			ops = append(ops, "enable "+p)
 		case x == 26:
 			ops = append(ops, "delete "+p)
+		case x == 27 && r.Chance(1, 2):
+			ops = append(ops, fmt.Sprintf("populate %s %s %d %s", p, ups[r.Intn(3)], r.Pick(1, 0, 1), r.PickS("same", "same", "new")))
 		case x == 27:
 			ops = append(ops, fmt.Sprintf("setupstream %s %s", p, ups[r.Intn(3)]))
 		case x == 28:
@@ -239,6 +258,8 @@ func Sweep(e *Engine, tier string, seed uint64, res *report.Result) {
 			ops = Relabel(r)
 		case i%10 == 7:
 			ops = StallLeak(r)
+		case i%10 == 9:
+			ops = Replace(r)
 		default:
 			ops = Episode(r)
 		}
